@@ -239,7 +239,8 @@ int main(int argc, char **argv)
         }
         for (int i = NI; i < MAXTOK; i++) IA[i] = 0;
         out_begin(lineno, name);
-        if (!leaf_op(name) && !api_op(name, lineno)) out_z(-1);
+        if (!strncmp(name, "spec_", 5)) { /* model-side only: the RFC specification */ }
+        else if (!leaf_op(name) && !api_op(name, lineno)) out_z(-1);
         out_end();
         fflush(stdout);
         for (int i = 0; i < NB; i++) free(BA[i]);
